@@ -241,6 +241,31 @@ CHECKS["C18"] = dict(
               "on the real code under a cooperative scheduler",
     design="2/C18")
 
+CHECKS["C03"] = dict(
+    level="other",
+    text="For seeded random group trees (flat groups, groups, one level of "
+         "sub-groups; real on/off, start/stop as numbers or property names, "
+         "iterate/min/max, condition, pre/post, update_nnps, several "
+         "destinations/sources, a family of equations defining different "
+         "subsets of the hook methods) the real code generator emits the "
+         "Cython module, which is lowered to Python and whose compute() is "
+         "executed with event recorders. Particle/ghost counts, neighbour "
+         "counts, start/stop values, condition() and converged() results are "
+         "solver variables whose feasible combinations are enumerated by the "
+         "path explorer; on every path the event trace (hook, equation, "
+         "d_idx, s_idx, which array each d_*/s_* argument points to, "
+         "set_context/neighbour queries, nnps updates, pre/post/condition) "
+         "must equal that of a reference interpreter of the documented "
+         "semantics.",
+    note="the Cython->Python lowering (vf/gen2py.py) and the reference "
+         "interpreter are trusted; prange sequential; paths per program are "
+         "capped (incomplete programs are listed); programs are sampled by "
+         "VERIF_SEED",
+    technique="symbolic execution of the lowered generated code with "
+              "solver-enumerated control inputs, trace equality against a "
+              "reference interpreter, concrete replay",
+    design="2/C03")
+
 NOT_APPLICABLE = {
     "C05": "whole-application runs of compiled OpenMP code compared across "
            "configurations up to summation order: no unit a solver can "
